@@ -87,10 +87,17 @@ def lookups(F, res):
             v = w.value
             while v[0] == 'ok':
                 v = v[1]
-            if not (v[0] == 'call' and v[1].split('::')[-1] in ('find', 'find_map') and len(v[2]) == 2 and 'self.arena' in show(v[2][0])):
+            looped = False
+            if v[0] == 'ctor' and v[2] == 'Some' and 'elem(' in show(v) and 'self.arena' in show(v):
+                verdict, looped = 'True', True          # a hand-written search loop returning the current entry
+            elif v == ('ctor', 'std::option::Option', 'None', ()) and any(e['kind'] == 'loop_exit' or e['loops'] for e in w.trace) \
+                    or (v[0] == 'ctor' and v[2] == 'None' and any('self.arena' in show(k) for k, _ in w.assumptions)):
+                verdict, looped = 'False', True         # ... or falling out of it
+            elif not (v[0] == 'call' and v[1].split('::')[-1] in ('find', 'find_map') and len(v[2]) == 2 and 'self.arena' in show(v[2][0])):
                 bad = 'the result is %s, not a search of this collection' % show(v)[:80]
                 continue
-            verdict = show(v[2][1])
+            else:
+                verdict = show(v[2][1])
             variant = [vv[2] for k, vv in w.assumptions if isinstance(vv, tuple) and vv and vv[0] == 'ctor'
                        and show(k).endswith('.' + field)]
             eq_true = False
